@@ -686,8 +686,15 @@ Definition pred_c09 (g : ghost) (w : world) (a : action) (O : oracle) (w' : worl
   match a with
   | AReq r =>
       match q_route r with
-      | RApp _ _ _ _ _ _ true =>
+      | RApp _ _ _ _ _ remembermw true =>
           let sess := sess_of w (q_browser r) in
+          (* behind the expire middleware the remember middleware may log the browser in again from a valid
+             cookie: a new login on another credential, half-authenticated, which is not the expired session *)
+          let relogin := if remembermw then
+                           match alookup k_rm (cook_of w (q_browser r)) with
+                           | Some c => cookie_owner w c
+                           | None => None end
+                         else None in
           match uid_in sess with
           | None => []
           | Some U =>
@@ -696,13 +703,19 @@ Definition pred_c09 (g : ghost) (w : world) (a : action) (O : oracle) (w' : worl
               if (0 - 2 <=? margin) && (margin <=? 2) then []       (* within a second or two of the deadline: not judged *)
               else if (match stamp with Some _ => 0 <=? margin | None => c_expire_after cfg <=? 0 end) then
                 (* expired: nothing but whitelisted values survives or is visible, nobody is logged in *)
-                (if forallb (fun kv => bmem (fst kv) (c_whitelist cfg) || beqb (fst kv) k_flash_err || beqb (fst kv) k_halfauth && false)
+                (if forallb (fun kv => bmem (fst kv) (c_whitelist cfg) || beqb (fst kv) k_flash_err ||
+                                       match relogin with
+                                       | Some V => (beqb (fst kv) k_uid && beqb (snd kv) V) || (beqb (fst kv) k_halfauth && beqb (snd kv) v_true)
+                                       | None => false end)
                             (io_sess i) || (io_status i =? 0) then [] else [109]) ++
                 (if beqb (io_page i) (bs "app") then
                    match dlookup (bs "pid") (io_data i), dlookup (bs "keys") (io_data i) with
                    | Some (DStr p), Some (DList ks) =>
-                       (if bempty p || bmem k_uid (c_whitelist cfg) then [] else [1091]) ++
-                       (if forallb (fun k => bmem k (c_whitelist cfg)) ks then [] else [1092])
+                       (if bempty p || bmem k_uid (c_whitelist cfg) ||
+                           match relogin with Some V => beqb p V | None => false end then [] else [1091]) ++
+                       (if forallb (fun k => bmem k (c_whitelist cfg) ||
+                                             match relogin with Some _ => beqb k k_uid || beqb k k_halfauth | None => false end) ks
+                        then [] else [1092])
                    | _, _ => [] end
                  else []) ++
                 (if forallb (fun k => negb (bmem k (c_whitelist cfg)) || obytes_eq (alookup k sess) (alookup k (io_sess i)) || (io_status i =? 0))
